@@ -28,6 +28,23 @@ def derive_spaces(ctx):
         # filtered by the per-field `enabled` flag: `.zip(<flags>).filter(|(_, f)| *f)` or `.filter(|i| i.enabled)`
         filtered = bool(re.search(r"\.enabled\)\)?\.(?:enumerate\(\)\.)?filter\(\|\(_,(\w+)\)\|\*\1\)", body) or re.search(r"\.filter\(\|(\w+)\|\1\.enabled\)", body))
         methods[fn.name] = EN if filtered else ALL
+    # a view written through a helper of the impl (`self.only_enabled(self.fields.iter().copied())`): interpret it on a
+    # symbolic 3-element list with the middle flag off - two elements left means it ranges over the enabled fields
+    from .. import iterpipe as IP
+
+    st_fns = {g.name: g for g in A.functions(ctx.files[UTILS]) if g.self_ty == "State" and g.trait_ is None and g.block is not None}
+    for name in list(methods):
+        if methods[name] == EN or not st_fns[name].node["sig"]["inputs"] or len(st_fns[name].node["sig"]["inputs"]) != 1:
+            continue
+        flags = (True, False, True)
+        fields_ = {k: [f"{k}#{i}" for i in range(3)] for k in ("variants", "variant_states", "fields")}
+        fields_["full_meta_infos"] = [{"enabled": b, "id": i} for i, b in enumerate(flags)]
+        try:
+            got = IP.Interp(fields_, {"field_idents": ["id#0", "id#1", "id#2"]}, {k: v for k, v in st_fns.items() if k != name}).block(st_fns[name].block, {})
+        except Exception:
+            continue
+        if isinstance(got, list) and len(got) == 2:
+            methods[name] = EN
     # MultiFieldData fields from their initialisers in enabled_fields_data
     efd = A.get_fn(ctx.files, UTILS, "State::enabled_fields_data")
     fields = {}
@@ -188,6 +205,22 @@ class Spaces:
             if b is None:
                 return None
             init = b.get("init")
+            if b["kind"] == "param":
+                # a parameter of a private helper: the space every call site of the same file passes in that position
+                prm = [x for p_ in fn.node["sig"]["inputs"] if A.kind(p_) == "FnArg::Typed" for x in [A.pat_idents(p_["0"]["pat"])]]
+                pos = next((i for i, ns in enumerate(prm) if ns == [nm]), None)
+                if pos is None:
+                    return None
+                got = set()
+                for g in A.functions(fn.file):
+                    if g.block is None or g is fn:
+                        continue
+                    for c, _ in list(A.find(g.block, "Expr::MethodCall")) + list(A.find(g.block, "Expr::Call")):
+                        cn = c["method"]["sym"] if A.kind(c) == "Expr::MethodCall" else A.path_last(c["func"]) if A.kind(c["func"]) == "Expr::Path" else None
+                        if cn != fn.name or pos >= len(c["args"]):
+                            continue
+                        got.add(self.index(g, c["args"][pos], index_vars, depth + 1))
+                return got.pop() if len(got) == 1 else None
             if b["kind"] in ("closure", "for") or (b["kind"] == "let" and init is None):
                 # enumerate() tuple parameter
                 cl = b.get("closure")
@@ -307,6 +340,19 @@ def index_carriers(ctx, sp):
                 inits = [A.render(st_["init"]["expr"]) for st_, _ in A.find(fn.block, "Stmt::Local") if st_.get("init") and A.pat_idents(st_["pat"]) == [m_.group(1)]]
                 if inits and all(re.search(r"parse_field_impl\(&\w+,state\.fields\.len\(\),\w+(?:\.clone\(\))?,%s," % re.escape(tags[nm]), i_) for i_ in inits):
                     carriers[("ParsedFields", nm)] = space
+    if len(carriers) != 2:
+        # fourth accepted form: plain assignments `parsed_fields.source = sel.map(|(index, _, _)| index);`
+        for asg, _ in A.find(fn.block, "Expr::Assign"):
+            l = A.peel(asg["left"])
+            if A.kind(l) != "Expr::Field" or A.kind(l["member"]) != "Member::Named" or l["member"]["0"]["sym"] not in ("source", "backtrace"):
+                continue
+            nm = l["member"]["0"]["sym"]
+            m_ = re.fullmatch(r"(\w+)\.map\(\|\((\w+),_,_\)\|\2\)", A.render(asg["right"]))
+            if not m_:
+                continue
+            inits = [A.render(st_["init"]["expr"]) for st_, _ in A.find(fn.block, "Stmt::Local") if st_.get("init") and A.pat_idents(st_["pat"]) == [m_.group(1)]]
+            if inits and all(re.search(r"parse_field_impl\(&\w+,state\.fields\.len\(\),\w+(?:\.clone\(\))?,%s," % re.escape(tags[nm]), i_) for i_ in inits):
+                carriers[("ParsedFields", nm)] = space
     if len(carriers) != 2:
         raise A.AnchorLost(f"{rel}::parse_fields_impl", "assignments of source/backtrace from the enumerate index")
     return carriers
